@@ -593,9 +593,11 @@ class ListItem(BlockToken):
         match_obj = cls.continuation_pattern.match(line)
         if match_obj is None:
             return None
-        if match_obj.group(2) == '\n':
-            return '\n'
         expanded_spaces = match_obj.group(1).expandtabs(4)
+        if match_obj.group(2) == '\n':
+            # a blank line always continues the item; whitespace beyond the item's
+            # indentation is kept (it is content inside a code block)
+            return expanded_spaces[prepend:] + '\n'
         return expanded_spaces[prepend:] + match_obj.group(2) if len(expanded_spaces) >= prepend else None
 
     @classmethod
@@ -694,7 +696,7 @@ class ListItem(BlockToken):
                 continuation = next_line
 
             line_buffer.append(continuation)
-            newline_count = newline_count + 1 if continuation == '\n' else 0
+            newline_count = newline_count + 1 if continuation.strip() == '' else 0
             next(lines)
             next_line = lines.peek()
 
